@@ -718,11 +718,13 @@ func (obj *SparseIntMatrix) JointIterator(b ConstMatrix) MatrixJointIterator {
 }
 func (obj *SparseIntMatrix) ITERATOR() *SparseIntMatrixIterator {
   r := SparseIntMatrixIterator{*obj.values.ITERATOR(), obj}
+  r.skipOutside()
   return &r
 }
 func (obj *SparseIntMatrix) ITERATOR_FROM(i, j int) *SparseIntMatrixIterator {
   k := obj.index(i, j)
   r := SparseIntMatrixIterator{*obj.values.ITERATOR_FROM(k), obj}
+  r.skipOutside()
   return &r
 }
 func (obj *SparseIntMatrix) JOINT_ITERATOR(b ConstMatrix) *SparseIntMatrixJointIterator {
@@ -743,6 +745,20 @@ type SparseIntMatrixIterator struct {
 }
 func (obj *SparseIntMatrixIterator) Index() (int, int) {
   return obj.m.ij(obj.SparseIntVectorIterator.Index())
+}
+func (obj *SparseIntMatrixIterator) Next() {
+  obj.SparseIntVectorIterator.Next()
+  obj.skipOutside()
+}
+// the underlying vector also holds the entries of the parent matrix that lie
+// outside a sub-matrix view: skip them
+func (obj *SparseIntMatrixIterator) skipOutside() {
+  for obj.SparseIntVectorIterator.Ok() {
+    if i, j := obj.Index(); i >= 0 && i < obj.m.rows && j >= 0 && j < obj.m.cols {
+      return
+    }
+    obj.SparseIntVectorIterator.Next()
+  }
 }
 func (obj *SparseIntMatrixIterator) Clone() *SparseIntMatrixIterator {
   return &SparseIntMatrixIterator{*obj.SparseIntVectorIterator.Clone(), obj.m}
